@@ -184,6 +184,11 @@ def gen_ssc(rng, corp):
                 sf.pop(k, None)
             else:
                 sf[k] = v
+    if rng.random() < 0.35:
+        # properties whose NAMES merely resemble the listed ones (parts of them, or longer): never refusable, always copied
+        for k in rng.sample(["VER", "VERSIONS", "ION", "WARP", "WAR", "S", "E", "A", "P", "ORIGIN2", "LABEL", "JACKETS", "SPEED", "XCOMBOS",
+                             "FAKE", "PREVIEWVI", "CDIMAGES", "SCROLL", "MUSICLENGTH2", "TIMESIGNATURE", "LASTSECONDHINTS", "X"], rng.randint(1, 3)):
+            sf[k] = rng.choice(["", "v", "0.000=1", "0.83"])
     w = rng.random()
     if w < 0.15:
         sf["WARPS"] = rng.choice(["4.000=2.000", "1=1,\n8=0.5", "16.000=0.000", "2=0,\n4=0"])
